@@ -134,6 +134,36 @@ def _find_instructions(
     return reaches
 
 
+def _covered_instructions(label: Instruction, matches: List[List[Instruction]]) -> Set[Instruction]:
+    """
+    Instructions that lie between the label and a match, on every path (not only the first one found).
+
+    Args:
+        label: instruction the search starts from
+        matches: the matches found
+
+    Returns:
+        Instructions reachable from the label which have a successor that can reach the start of a match
+    """
+    reachable: Set[Instruction] = set()
+    stack: List[Instruction] = [label]
+    while stack:
+        ins = stack.pop()
+        if ins not in reachable:
+            reachable.add(ins)
+            stack.extend(ins.next)
+
+    reaches_match: Set[Instruction] = set()
+    stack = [match[0] for match in matches]
+    while stack:
+        ins = stack.pop()
+        if ins not in reaches_match:
+            reaches_match.add(ins)
+            stack.extend(prev_ins for prev_ins in ins.prev if prev_ins in reachable)
+
+    return {ins for ins in reachable if any(next_ins in reaches_match for next_ins in ins.next)}
+
+
 def match_regex(contract: Teal, regex: Regex) -> Tuple[List[List[Instruction]], Set[Instruction]]:
     """
     Match the regex in the contract
@@ -157,6 +187,9 @@ def match_regex(contract: Teal, regex: Regex) -> Tuple[List[List[Instruction]], 
     covered: Set[Instruction] = set()
 
     _find_instructions(label, regex.instructions, set(), matches, covered)
+
+    # the depth first search marks only the first path it finds to a match
+    covered = _covered_instructions(label, matches)
 
     return matches, covered
 
